@@ -132,8 +132,9 @@ class Runner(object):
         if impl == "sync":
             self.dev = sync_mod.AdbDevice(MemTransport(self.link), default_transport_timeout_s=dtt, banner=scn.get("banner", b"verif"))
         else:
-            self.loop = asyncio.new_event_loop()
-            self.dev = async_mod.AdbDeviceAsync(MemTransportAsync(self.link), default_transport_timeout_s=dtt, banner=scn.get("banner", b"verif"))
+            import vloop
+            self.loop = vloop.VLoop(self.clock)     # asyncio timers (wait_for, timeout contexts) run on the scenario's virtual clock
+            self.dev = async_mod.AdbDeviceAsync(MemTransportAsync(self.link, vsleep=True), default_transport_timeout_s=dtt, banner=scn.get("banner", b"verif"))
         # one thread / one task: a blocking request for a held lock can never be granted; report it instead of hanging the harness
         mk = GuardLock if impl == "sync" else GuardAsyncLock
         self.dev._local_id_lock = mk("localId")
